@@ -4,6 +4,7 @@ import (
 	"bytes"
 	"fmt"
 	"hash/fnv"
+	"os"
 	"regexp"
 	"runtime"
 	"runtime/debug"
@@ -41,11 +42,14 @@ type Task struct {
 	ID      int
 	Name    string
 	Harness bool
-	Point   string
-	Args    []string
-	gid     uint64
-	resume  chan struct{}
-	state   int
+	// Origin is, for a goroutine of the system under test that the scheduler
+	// adopted at a yield point, the function the goroutine was started with.
+	Origin string
+	Point  string
+	Args   []string
+	gid    uint64
+	resume chan struct{}
+	state  int
 	// ParkedAt is the fake time at which the task last parked.
 	ParkedAt time.Duration
 	// StallEnd is the fake time at which the last simulator-imposed stall of
@@ -241,7 +245,12 @@ func (s *Sim) hookYield(point string, args []string) { s.yieldAt(curGID(), point
 // yieldAt parks the calling goroutine if the run's policy says so. A goroutine
 // that holds an instrumented lock is never parked (another task blocking on
 // that mutex would not be durably blocked and the bubble could not settle).
+var traceYields = os.Getenv("VERIF_TRACE_YIELDS") != ""
+
 func (s *Sim) yieldAt(gid uint64, point string, args []string) {
+	if traceYields { // debugging aid: every hook crossing, parked or not
+		s.Event("trace", fmt.Sprint(gid), point, strings.Join(args, " "))
+	}
 	s.mu.Lock()
 	if gid == s.rootGID || s.held[gid] > 0 {
 		s.mu.Unlock()
@@ -257,7 +266,7 @@ func (s *Sim) yieldAt(gid uint64, point string, args []string) {
 		s.mu.Lock()
 		s.bgCount[point]++
 		t = &Task{ID: len(s.tasks), Name: fmt.Sprintf("bg:%s#%d", point, s.bgCount[point]),
-			gid: gid, resume: make(chan struct{})}
+			gid: gid, resume: make(chan struct{}), Origin: entryFunc(string(debug.Stack()))}
 		s.tasks = append(s.tasks, t)
 		s.byGID[gid] = t
 		s.mu.Unlock()
@@ -355,6 +364,22 @@ func (s *Sim) Spawn(name string, fn func()) *Task {
 	}()
 	synctest.Wait()
 	return t
+}
+
+// entryFunc returns the function a goroutine was started with (the bottom
+// frame of its stack).
+func entryFunc(stack string) string {
+	last := ""
+	for _, l := range strings.Split(stack, "\n") {
+		if l == "" || strings.HasPrefix(l, "\t") || strings.HasPrefix(l, "goroutine ") || strings.HasPrefix(l, "created by ") {
+			continue
+		}
+		if i := strings.LastIndexByte(l, '('); i > 0 {
+			l = l[:i]
+		}
+		last = l
+	}
+	return last
 }
 
 // firstFrame returns the first function of a panic stack that is neither
